@@ -268,7 +268,7 @@ def _guess_sender_key(
     if isinstance(key, KeySet):
         headers = recipient.headers()
         skid = headers.get('skid')
-        if skid:
+        if skid is not None:
             return key.get_by_kid(skid)  # type: ignore[return-value]
         if use_random:
             skey = key.pick_random_key(headers["alg"])
